@@ -150,6 +150,12 @@ def verify_case(world, entry, case, feas_timeout=2000):
                 kw[k] = argsd[k]
         elif extra:
             raise Unsupported(f"contract args {sorted(extra)} are not parameters of {entry.qualname}")
+        ex.entry_pc = list(st.pc)
+        for cut in case.cuts():
+            hit = [b for b in node.body if (ast.get_source_segment(src, b) or "").lstrip().startswith(cut.before)]
+            if len(hit) != 1:
+                raise Unsupported(f"cut point `{cut.before}` matches {len(hit)} top-level statements of {entry.qualname}")
+            ex.cuts[id(hit[0])] = cut
         opts = case.options()
         want_self = opts.get("returns_self", False)
         outs = list(ex.call_function_source(st, fn, pos, kw, node.lineno, defclass=owner, want_self=want_self))
